@@ -22,7 +22,7 @@ def run_tlc(module, cfg, env=None, workers=16, timeout=900, extra=(), deadlock_f
     meta = tempfile.mkdtemp(prefix="tlcmeta_")
     # a bounded heap and few GC threads: with the JVM's default (a quarter of the RAM) TLC spent
     # most of its time in the kernel zeroing fresh pages (27 s vs 5 s on the same model)
-    cmd = ["java", "-XX:+UseParallelGC", "-XX:ParallelGCThreads=4", f"-Xmx{heap}", "-cp", JAR, "tlc2.TLC",
+    cmd = ["java", "-XX:+UseParallelGC", "-XX:ParallelGCThreads=4", "-Xss32m", f"-Xmx{heap}", "-cp", JAR, "tlc2.TLC",
            "-workers", str(workers), "-metadir", meta, "-noGenerateSpecTE",
            "-config", cfg]
     if deadlock_flag:
@@ -79,6 +79,8 @@ def validate_traces(traces, module="Trace", cfg="Trace.cfg", workers=16, timeout
     results = {x["tid"]: x for x in tagged_json(r["out"], "RESULT")}
     r["size"] = size
     if len(results) != len(traces):
-        tail = "\n".join(r["out"].splitlines()[-40:])
+        lines = r["out"].splitlines()
+        errs = [i for i, l in enumerate(lines) if l.startswith("Error")]
+        tail = "\n".join(lines[errs[0]:errs[0] + 25] if errs else lines[-40:])
         raise TLCError(f"TLC reported {len(results)} of {len(traces)} traces\n{tail}\n{r['err'][-2000:]}")
     return results, r
